@@ -44,7 +44,12 @@ func (c10) Env(tier string, work string) []string {
 	return []string{"GORACE=halt_on_error=0 log_path=" + filepath.Join(work, "race")}
 }
 
-var c10Shapes = []string{"raw-buffered", "raw-unbuffered", "func()", "func()error", "func()chan-error-buffered", "func()chan-error-unbuffered", "func()<-chan-error-buffered", "func()chan-error-nil"}
+var c10Shapes = []string{"raw-buffered", "raw-unbuffered", "func()", "func()error", "func()chan-error-buffered", "func()chan-error-unbuffered", "func()<-chan-error-buffered", "func()chan-error-nil", "func()named-int-error-type"}
+
+// c10Errno is an error type that is a plain value (like syscall.Errno): a result of this type is never nil.
+type c10Errno int
+
+func (e c10Errno) Error() string { return fmt.Sprintf("errno %d", int(e)) }
 
 func (c10) Thresholds(tier string) map[string]int64 {
 	th := map[string]int64{
@@ -53,6 +58,7 @@ func (c10) Thresholds(tier string) map[string]int64 {
 		"waiting-polls-observed":                3000,
 		"polls-issued-with-gate-closed":         3000,
 		"pending-command-is-the-last-statement": 100,
+		"completion-by-closing-the-channel":     200,
 		"completion:nil":                        1200,
 		"completion:error":                      600,
 		"error-surfaced-exactly-once":           600,
@@ -77,7 +83,7 @@ func (c10) Thresholds(tier string) map[string]int64 {
 }
 
 func (c10) Rule() string {
-	return "all children run under the Go race detector (reports are counted from GORACE log files by the parent). Case 0 = the built-in <<wait n>> for n in {0, 0.0009, 0.0137, 0.05, 0.25, 0.5, 0.9, 1, 1.25} run in parallel runners, and case 1 = sub-millisecond and odd fractional waits (0.0009, 0.00051, 0.0011, 0.0137, 0.00999, 0.0025) 25 times each, one after the other: completion must not be observed earlier than n seconds after the call that started it (monotonic clock, lower bound only). Every other case = (a) one script with 1-5 commands between lines and sets, each command with a handler shape {" + strings.Join(c10Shapes, ", ") + "} and a completion schedule {complete on return, or complete after p in 1..5 polls} x {nil, sentinel error}: completion is driven by the harness through a gate, so 'pending' is a logical state, not a timing; in a third of the scripts the last command is the very last statement of the dialogue (closing 0-2 enclosing blocks), so that the waiting protocol is also observed when nothing follows the command; (b) an abandon scenario: a pending command is abandoned by RestoreAt, the same command statement is executed again, and the abandoned invocation reports completion (with an error) first - the dialogue must keep waiting for the second invocation and then resume without error; (c) a real-timing run: 4 runners in parallel goroutines whose handlers sleep 0-2 ms in the bridge goroutine while the driver polls with 0-1 ms pauses. Oracle (a): every Next issued while the gate is closed returns ErrWaitingForCommandCompletion (a 10 s watchdog opens the gate if the call does not return: a call that returns anything else than 'waiting' although it was issued with the gate closed is the violation), with no store write, no probe and no handler invocation during it; after the gate opens, buffered-channel shapes must be observed by the very next Next, goroutine / unbuffered shapes within a bounded number of polls; a reported error surfaces exactly once (errors.Is sentinel) and the dialogue then resumes at the statement after the command; every executed command invoked its handler exactly once with the arguments written. Oracle (b): each runner's elements are the script's lines in order, every handler ran once, zero race reports with a ysgo frame. Non-trivial: >=1 command stayed pending for >=1 poll. Distinct by hash of script+shapes+schedules."
+	return "all children run under the Go race detector (reports are counted from GORACE log files by the parent). Case 0 = the built-in <<wait n>> for n in {0, 0.0009, 0.0137, 0.05, 0.25, 0.5, 0.9, 1, 1.25} run in parallel runners, and case 1 = sub-millisecond and odd fractional waits (0.0009, 0.00051, 0.0011, 0.0137, 0.00999, 0.0025) 25 times each, one after the other: completion must not be observed earlier than n seconds after the call that started it (monotonic clock, lower bound only). Every other case = (a) one script with 1-5 commands between lines and sets, each command with a handler shape {" + strings.Join(c10Shapes, ", ") + "} and a completion schedule {complete on return, or complete after p in 1..5 polls} x {nil, sentinel error; for channel shapes, success is one time in three reported by closing the channel without a send}: completion is driven by the harness through a gate, so 'pending' is a logical state, not a timing; in a third of the scripts the last command is the very last statement of the dialogue (closing 0-2 enclosing blocks), so that the waiting protocol is also observed when nothing follows the command; (b) an abandon scenario: a pending command is abandoned by RestoreAt, the same command statement is executed again, and the abandoned invocation reports completion (with an error) first - the dialogue must keep waiting for the second invocation and then resume without error; (c) a real-timing run: 4 runners in parallel goroutines whose handlers sleep 0-2 ms in the bridge goroutine while the driver polls with 0-1 ms pauses. Oracle (a): every Next issued while the gate is closed returns ErrWaitingForCommandCompletion (a 10 s watchdog opens the gate if the call does not return: a call that returns anything else than 'waiting' although it was issued with the gate closed is the violation), with no store write, no probe and no handler invocation during it; after the gate opens, buffered-channel shapes must be observed by the very next Next, goroutine / unbuffered shapes within a bounded number of polls; a reported error surfaces exactly once (errors.Is sentinel) and the dialogue then resumes at the statement after the command; every executed command invoked its handler exactly once with the arguments written. Oracle (b): each runner's elements are the script's lines in order, every handler ran once, zero race reports with a ysgo frame. Non-trivial: >=1 command stayed pending for >=1 poll. Distinct by hash of script+shapes+schedules."
 }
 
 func (c10) Assumptions() []string {
@@ -93,19 +99,21 @@ func (c10) Assumptions() []string {
 var errSentinel = errors.New("sentinel completion error injected by the harness")
 
 type c10Cmd struct {
-	name   string
-	shape  int
-	polls  int
-	fail   bool
-	id     string
-	num    float64
-	flag   bool
-	mu     sync.Mutex
-	calls  int
-	got    string
-	gate   chan struct{}
-	ch     chan error
-	opened bool
+	name  string
+	shape int
+	polls int
+	fail  bool
+	// closeOnly: success is reported by closing the channel without sending anything (defer close(done))
+	closeOnly bool
+	id        string
+	num       float64
+	flag      bool
+	mu        sync.Mutex
+	calls     int
+	got       string
+	gate      chan struct{}
+	ch        chan error
+	opened    bool
 	// real-timing order evidence
 	returned atomic.Bool
 }
@@ -124,6 +132,9 @@ func (k *c10Cmd) callCount() int {
 }
 
 func (k *c10Cmd) result() error {
+	if k.shape == 8 {
+		return c10Errno(5)
+	}
 	if k.fail {
 		return errSentinel
 	}
@@ -142,14 +153,22 @@ func (k *c10Cmd) complete() {
 		ch := k.ch
 		k.mu.Unlock()
 		if ch != nil {
-			ch <- k.result()
+			if k.closeOnly {
+				close(ch)
+			} else {
+				ch <- k.result()
+			}
 		}
 	case 1, 5: // unbuffered: the send completes when the runner polls
 		k.mu.Lock()
 		ch := k.ch
 		k.mu.Unlock()
 		if ch != nil {
-			go func() { ch <- k.result() }()
+			if k.closeOnly {
+				close(ch)
+			} else {
+				go func() { ch <- k.result() }()
+			}
 		}
 	default:
 		close(k.gate)
@@ -179,9 +198,12 @@ func (k *c10Cmd) register(rr *mon.Real) error {
 		k.mu.Unlock()
 		if k.polls == 0 {
 			k.opened = true
-			if buffered {
+			switch {
+			case k.closeOnly:
+				close(ch)
+			case buffered:
 				ch <- k.result()
-			} else {
+			default:
 				go func() { ch <- k.result() }()
 			}
 		}
@@ -206,6 +228,13 @@ func (k *c10Cmd) register(rr *mon.Real) error {
 			<-k.gate
 			k.returned.Store(true)
 			return k.result()
+		})
+	case 8:
+		return rr.DR.ConvertAndAddCommand(k.name, func(id string, n float64, f bool) c10Errno {
+			k.record(id, n, f)
+			<-k.gate
+			k.returned.Store(true)
+			return c10Errno(5)
 		})
 	case 4, 5:
 		return rr.DR.ConvertAndAddCommand(k.name, func(id string, n float64, f bool) chan error {
@@ -414,11 +443,15 @@ func (p c10) gated(c *core.Ctx) {
 	for i := 0; i < ncmd; i++ {
 		addFiller()
 		k := &c10Cmd{name: fmt.Sprintf("cmd%d", i), shape: r.Intn(len(c10Shapes)), polls: r.Intn(6), gate: make(chan struct{})}
-		k.fail = r.Chance(1, 3) && k.shape != 2 && k.shape != 7
+		k.fail = r.Chance(1, 3) && k.shape != 2 && k.shape != 7 || k.shape == 8
 		if k.shape == 7 {
 			k.polls = 0 // a nil channel is an immediate error
 		}
-		if k.polls == 0 && (k.shape == 2 || k.shape == 3) {
+		if !k.fail && (k.shape <= 1 || k.shape >= 4 && k.shape <= 6) && r.Chance(1, 3) {
+			k.closeOnly = true
+			c.Feature("completion-by-closing-the-channel")
+		}
+		if k.polls == 0 && (k.shape == 2 || k.shape == 3 || k.shape == 8) {
 			k.opened = true
 			close(k.gate)
 		}
@@ -644,13 +677,13 @@ func (p c10) gated(c *core.Ctx) {
 				o, _ = next(nil)
 			} else if k.fail {
 				c.Feature("completion:error")
-				if o.Kind != mon.KErr || !errors.Is(o.Err, errSentinel) {
+				if o.Kind != mon.KErr || !errors.Is(o.Err, k.result()) {
 					fail(fmt.Sprintf("command %s completed with an error: want that error from Next, got %s", k.name, o))
 					return
 				}
 				// exactly once: the following call resumes at the statement after the command
 				o, _ = next(nil)
-				if o.Kind == mon.KErr && errors.Is(o.Err, errSentinel) {
+				if o.Kind == mon.KErr && errors.Is(o.Err, k.result()) {
 					fail(fmt.Sprintf("the error reported by command %s surfaced twice", k.name))
 					return
 				}
